@@ -19,7 +19,7 @@ From PV Require Model.Resolve.
 Import ListNotations.
 Open Scope Z_scope.
 
-Definition protoc_cfg : cfg := mkCfg true true true.
+Definition protoc_cfg : cfg := mkCfg true true true true.
 
 (* ------------------------------------------------------------------------------------------ *)
 (* stage 1 on the source tree: numbers, ranges, names as written *)
@@ -192,7 +192,7 @@ Definition no_errs (l : list ecls) : bool := match l with [] => true | _ => fals
 
 (* Some descriptor = protoc accepts the file (given the files compiled before it) *)
 Definition spec_compile_file (st : cstate) (f : sfile) : cstate * option dfile :=
-  let fail := fun st' => (mkCState (st_tab st') (st_exts st') (st_done st') (sf_name f :: st_failed st'), None) in
+  let fail := fun st' => (mkCState (st_tab st') (st_exts st') (st_done st') (sf_name f :: st_failed st') (st_xnames st'), None) in
   if negb (spec_stage1_ok f) then fail st
   else
     let d := protoc_synth_file (lower_file f) in
@@ -200,16 +200,18 @@ Definition spec_compile_file (st : cstate) (f : sfile) : cstate * option dfile :
     then fail st
     else
       match import_result (st_tab st) d with
-      | (T, _ :: _) => fail (mkCState T (st_exts st) (st_done st) (st_failed st))
+      | (T, _ :: _) => fail (mkCState T (st_exts st) (st_done st) (st_failed st) (st_xnames st))
       | (T, []) =>
         let '(d1, X, e2) := resolve_file protoc_cfg (st_done st) (st_exts st) d in
-        let st1 := mkCState T X (st_done st) (st_failed st) in
+        let st1 := mkCState T X (st_done st) (st_failed st) (st_xnames st) in
         if negb (no_errs e2) then fail st1
         else
           let '(d2, e3) := options_file protoc_cfg (st_done st) d1 in
           if negb (no_errs e3) then fail st1
-          else if negb (no_errs (validate_options protoc_cfg (st_done st) (file_xdecls f) d2)) then fail st1
-          else (mkCState T X (st_done st ++ [mkCFile (sf_name f) d2 (file_syms d2) (file_xdecls f)]) (st_failed st), Some d2)
+          else
+            let '(e4, XN) := validate_options protoc_cfg (st_done st) (file_xdecls f) (st_xnames st) d2 in
+            if negb (no_errs e4) then fail (mkCState T X (st_done st) (st_failed st) XN)
+            else (mkCState T X (st_done st ++ [mkCFile (sf_name f) d2 (file_syms d2) (file_xdecls f)]) (st_failed st) XN, Some d2)
       end.
 
 Fixpoint spec_compile_files (st : cstate) (fs : list sfile) : list (option dfile) :=
@@ -218,7 +220,7 @@ Fixpoint spec_compile_files (st : cstate) (fs : list sfile) : list (option dfile
   | f :: r => let '(st1, res) := spec_compile_file st f in res :: spec_compile_files st1 r
   end.
 
-Definition spec_compile (fs : list sfile) : list (option dfile) := spec_compile_files (mkCState [] [] [] []) fs.
+Definition spec_compile (fs : list sfile) : list (option dfile) := spec_compile_files (mkCState [] [] [] [] []) fs.
 
 (* protoc accepts the file set *)
 Definition spec_accepts (fs : list sfile) : bool := forallb (fun o => is_some o) (spec_compile fs).
@@ -321,6 +323,8 @@ Definition spec_valid_chk (c : spec_case) : bool :=
    verdict; the plugins evaluate the parts separately only for the cases where this fails *)
 Definition c01_full_chk (c : c01_case) : bool :=
   c01_chk c && match c with C01Case fs ok _ => spec_chk (SpecCase fs ok) end.
+Definition c01_full_chk_repaired (c : c01_case) : bool :=
+  c01_chk_repaired c && match c with C01Case fs ok _ => spec_chk (SpecCase fs ok) end.
 Definition c01_spec_part (c : c01_case) : bool :=
   match c with C01Case fs ok _ => spec_chk (SpecCase fs ok) end.
 Definition c01_excused_part (c : c01_case) : bool :=
@@ -348,6 +352,8 @@ Definition name_full_chk (c : name_case) : bool := name_chk c && name_spec_chk c
 Inductive c01_probe := P1Model (c : c01_case) | P1Spec (c : c01_case) | P1Exc (c : c01_case).
 Definition c01_probe_chk (p : c01_probe) : bool :=
   match p with P1Model c => c01_chk c | P1Spec c => c01_spec_part c | P1Exc c => c01_excused_part c end.
+Definition c01_probe_chk_repaired (p : c01_probe) : bool :=
+  match p with P1Model c => c01_chk_repaired c | P1Spec c => c01_spec_part c | P1Exc c => c01_excused_part c end.
 Inductive c02_probe := P2Model (c : c02_case) | P2Spec (c : c02_case) | P2Exc (c : c02_case).
 Definition c02_probe_chk (p : c02_probe) : bool :=
   match p with P2Model c => c02_chk c | P2Spec c => c02_spec_part c | P2Exc c => c02_excused_part c end.
